@@ -44,6 +44,13 @@ def run(ctx):
     per_sig = collections.OrderedDict()
     benign_rejected = []
     nrejected = set()
+    # templates whose benign renderings the structure acceptor rejects: on those "structure" says nothing
+    # about payload pages either; the other clauses (verbatim values, URL schemes, twin skeleton) still do
+    unreliable = set()
+    for r, ps in rejs:
+        p = ps[r["line"] - 1]
+        if p["variant"] == "benign" and not p["path"].startswith("tplfail:") and r["why"] == "structure":
+            unreliable.add(p["tmpl"])
     for r, ps in rejs:
         p = ps[r["line"] - 1]
         by_id = {x["id"]: x for x in ps}
@@ -52,10 +59,12 @@ def run(ctx):
         if p["variant"] == "benign" and p["path"].startswith("tplfail:") is False and why in ("structure", "twin-status"):
             benign_rejected.append((p["path"], why, r["expected"]))
             continue
+        if why == "structure" and p["tmpl"] in unreliable:
+            continue
         sig = "C36:%s:%s" % (why, p["tmpl"])
         per_sig.setdefault(sig, []).append((r, p, by_id))
-    if benign_rejected:
-        # the acceptor is not precise enough for this tree's benign pages: no claim can be made
+    if benign_rejected and not per_sig:
+        # the acceptor is not precise enough for this tree's benign pages and nothing else was observed: no claim
         raise vk.Inconclusive("the page-structure acceptor rejects benign pages (template changed?): %s" % json.dumps(benign_rejected[:3])[:1500])
     for sig, lst in per_sig.items():
         r, p, by_id = lst[0]
